@@ -1,12 +1,14 @@
 package app
 
 import (
+	"crypto/sha256"
 	"encoding/hex"
 	"encoding/json"
 
 	abci "github.com/cometbft/cometbft/abci/types"
 	cmtproto "github.com/cometbft/cometbft/proto/tendermint/types"
 	gethcommon "github.com/ethereum/go-ethereum/common"
+	gethcrypto "github.com/ethereum/go-ethereum/crypto"
 	bridgetypes "github.com/tellor-io/layer/x/bridge/types"
 )
 
@@ -39,7 +41,8 @@ func c17Commit(ph *ProposalHandler, n int) ([]c17Vote, abci.ExtendedCommitInfo) 
 		}
 		ext := BridgeVoteExtension{}
 		if v.hasInit {
-			ext.InitialSignature = InitialSignature{SignatureA: ndByteSlice(nm("sigA", i), 65), SignatureB: ndByteSlice(nm("sigB", i), 65)}
+			a, b := c17InitialSigs(i)
+			ext.InitialSignature = InitialSignature{SignatureA: a, SignatureB: b}
 		}
 		if v.hasVal {
 			v.sigV = ndByteSlice(nm("sigV", i), 2)
@@ -163,3 +166,29 @@ func bytesEq20(a, b []byte) bool {
 }
 
 func commonAddressHex(a [20]byte) string { return gethcommon.Address(a).Hex() }
+
+// c17InitialSigs: symbolically two arbitrary 65-byte signatures (public-key recovery is an arbitrary fixed function
+// of hash and signature, so "both recover the same address" is one of the explored outcomes); natively two REAL
+// signatures by one test key over the two initial-signature messages, so that a counterexample in which a vote's
+// registration goes through can be replayed against the real recovery code.
+func c17InitialSigs(i int) ([]byte, []byte) {
+	if ndSymbolic() {
+		return ndByteSlice(nm("sigA", i), 65), ndByteSlice(nm("sigB", i), 65)
+	}
+	keyBytes := make([]byte, 32)
+	keyBytes[31] = byte(7 + i)
+	key, err := gethcrypto.ToECDSA(keyBytes)
+	if err != nil {
+		panic(err)
+	}
+	sign := func(msg string) []byte {
+		h1 := sha256.Sum256([]byte(msg))
+		h2 := sha256.Sum256(h1[:])
+		sig, err := gethcrypto.Sign(h2[:], key)
+		if err != nil {
+			panic(err)
+		}
+		return sig
+	}
+	return sign("TellorLayer: Initial bridge signature A"), sign("TellorLayer: Initial bridge signature B")
+}
